@@ -795,3 +795,8 @@ def check_listed(case, ctx):
 
 
 SUBS.append(Sub('listed', check_listed, enumerate=listed_cases, shards_quick=1, shards_thorough=1))
+
+
+from vlib.reported import reported_sub  # noqa: E402
+
+SUBS.append(reported_sub('C18'))
